@@ -383,7 +383,27 @@ def rids_wire_ids_derive_both(ctx):
     wire_ids_derive_both(ctx, "C06.IDS")
 
 
-RULES = [r1_permit_before_handler, r2_permit_flow, r3_unsubscribe_answer, r4_release_on_last_drop, r5_unsubscribe_needs_no_permit, r6_cap_provenance, r7_table_writers, r8_no_relock, r9_connection_ids_are_fresh, r10_ids_spelled_alike, rcfg_config_verbatim, rids_wire_ids_derive_both]
+
+def rgen_generated_registrations(ctx):
+    """`unsubscribe` (and its aliases) of a macro-generated API reach the unsubscribe handler (= C17 over the corpus)"""
+    from . import c17
+    return c17.w_rules(ctx)
+
+
+LIB_RULES = [r1_permit_before_handler, r2_permit_flow, r3_unsubscribe_answer, r4_release_on_last_drop, r5_unsubscribe_needs_no_permit, r6_cap_provenance, r7_table_writers, r8_no_relock, r9_connection_ids_are_fresh, r10_ids_spelled_alike, rcfg_config_verbatim, rids_wire_ids_derive_both]
+CONFIGS_QUICK = ["libs-all", "corpus"]
+CONFIGS_THOROUGH = ["libs-all", "facade-full", "corpus"]
+
+
+def _only(cfgs, rule):
+    def run(ctx):
+        if ctx.config in cfgs:
+            return rule(ctx)
+    run.__name__ = rule.__name__
+    return run
+
+
+RULES = [_only(("libs-all", "facade-full"), r) for r in LIB_RULES] + [_only(("corpus",), rgen_generated_registrations)]
 
 LEVEL_TEXT = (
     "Structural necessary conditions of subscription bookkeeping decided from the type-checked program: acquire dominates "
